@@ -62,9 +62,18 @@ class SimFile(io.RawIOBase):
         return len(d)
 
     def close(self):
-        if not self.closed:
+        if not self.closed and not getattr(self, "_finalizing", False):
             SIM.event("close", self.path, yield_=False)
         super().close()
+
+    def __del__(self):
+        # a handle that is merely dropped is closed by the garbage collector at a moment the
+        # simulator does not own: keep that out of the event log
+        self._finalizing = True
+        try:
+            self.close()
+        except Exception:  # noqa: BLE001
+            pass
 
 
 class SimFS(AbstractFileSystem):
